@@ -233,6 +233,76 @@ func (g s1Gen) withQuery() string {
 	return b.String()
 }
 
+// withHopQuery: stage S3b — MATCH (n[:K…]) [WHERE p] WITH n MATCH (n)-[r[:T]]->(b[:K]) RETURN items over n, r, b (each read).
+func (g s1Gen) withHopQuery() string {
+	var b strings.Builder
+	b.WriteString("match (n" + Pick(g.rng, []string{"", "", ":NodeKind1", ":NodeKind2:NodeKind1", ":NodeKind2"}) + ")")
+	if g.rng.Chance(1, 2) {
+		b.WriteString(" where " + g.pred(2, 0))
+	}
+	b.WriteString(" with " + Pick(g.rng, []string{"n", "n", "n as n"}))
+	b.WriteString(" match (n)-[r" + Pick(g.rng, []string{"", "", ":EdgeKind1", ":EdgeKind1|EdgeKind2"}) + "]->(b" + Pick(g.rng, []string{"", "", ":NodeKind2", ":NodeKind1:NodeKind2"}) + ")")
+	mk := func(v string) string {
+		switch g.rng.Intn(3) {
+		case 0:
+			return v
+		case 1:
+			return "id(" + v + ")"
+		default:
+			return v + "." + Pick(g.rng, []string{"name", "a", "w", "zz"})
+		}
+	}
+	items := []string{mk("n"), mk("r"), mk("b")}
+	for i := g.rng.Intn(3); i > 0; i-- {
+		items = append(items, mk(Pick(g.rng, []string{"n", "r", "b"})))
+	}
+	for i := range items {
+		j := g.rng.Intn(i + 1)
+		items[i], items[j] = items[j], items[i]
+	}
+	for i := range items {
+		if g.rng.Chance(1, 3) {
+			items[i] += fmt.Sprintf(" as c%d", i)
+		}
+	}
+	b.WriteString(" return " + strings.Join(items, ", "))
+	return b.String()
+}
+
+// orderPropQuery: stage S1o — an S1 query without ORDER BY of its own, ordered by a property of the node (ASC / DESC in any spelling,
+// optional SKIP / LIMIT).
+func (g s1Gen) orderPropQuery() string {
+	var b strings.Builder
+	b.WriteString("match (n" + Pick(g.rng, []string{"", "", ":NodeKind1", ":NodeKind2:NodeKind1", ":NodeKind2"}) + ")")
+	if g.rng.Chance(1, 2) {
+		b.WriteString(" where " + g.pred(2, 0))
+	}
+	b.WriteString(" return ")
+	n := 1 + g.rng.Intn(3)
+	items := make([]string, n)
+	for i := range items {
+		it := Pick(g.rng, []string{"n", "n.name", "n.a", "id(n)"})
+		if g.rng.Chance(1, 3) {
+			it += fmt.Sprintf(" as c%d", i)
+		}
+		items[i] = it
+	}
+	b.WriteString(strings.Join(items, ", "))
+	b.WriteString(" order by n." + Pick(g.rng, []string{"name", "a", "a", "zz", "f"}))
+	if g.rng.Bool() {
+		b.WriteString(descSpelling(b.Len()))
+	} else {
+		b.WriteString(ascSpelling(b.Len()))
+	}
+	if g.rng.Chance(1, 3) {
+		b.WriteString(" skip " + Pick(g.rng, []string{"0", "1", "2"}))
+	}
+	if g.rng.Chance(1, 3) {
+		b.WriteString(" limit " + Pick(g.rng, []string{"0", "1", "2", "5"}))
+	}
+	return b.String()
+}
+
 // countQuery: stage S1c — MATCH (n[:K…]) [WHERE p] RETURN count(n) [AS c].
 func (g s1Gen) countQuery() string {
 	var b strings.Builder
@@ -369,5 +439,13 @@ func (c01TieSuite) Gen(rng *Rng, tier string, w *bufio.Writer, stats *Stats) {
 	for i := 0; i < n/3; i++ {
 		fmt.Fprintf(w, "# case %d s3a\nq %s %d 4 0 0\n", 3*n+i+1, jsonQuote(g.withQuery()), rng.Intn(1<<20))
 		stats.Inc("s3a_generated")
+	}
+	for i := 0; i < n/3; i++ {
+		fmt.Fprintf(w, "# case %d s3b\nq %s %d 4 0 0\n", 3*n+n/3+i+1, jsonQuote(g.withHopQuery()), rng.Intn(1<<20))
+		stats.Inc("s3b_generated")
+	}
+	for i := 0; i < n/3; i++ {
+		fmt.Fprintf(w, "# case %d s1o\nq %s %d 4 0 0\n", 3*n+2*(n/3)+i+1, jsonQuote(g.orderPropQuery()), rng.Intn(1<<20))
+		stats.Inc("s1o_generated")
 	}
 }
